@@ -49,11 +49,11 @@ def spec(T: bytes, a: int, b: int, kind: str):
     if kind == "q":
         return ("q", cov, "", a, b, [])
     if kind == "u":
-        return ("u", cov.upper(), "", a, b, [])
+        return ("u", cov.upper(), "lbl", a, b, [])  # labelled but undecoded (like a MixedCase keyword hit)
     if kind == "d1":
         return ("d", b"Z", "d1", a, b, [])
     if kind == "dE":
-        return ("d", b"Q" * (b - a), "dE", a, b, [])
+        return ("d", b"Q" * (b - a), "", a, b, [])  # decoded without a label (like a PowerShell byte array)
     if kind == "dL":
         return ("d", cov + b"YZ", "dL", a, b, [])
     if kind == "k":
